@@ -1664,3 +1664,35 @@ Proof.
   - destruct (step_flfi c s m); cbn in H; inversion H.
   - inversion H.
 Qed.
+
+(* ------------------------------------------------------------------ corollary: nothing missing, nothing resized *)
+Lemma nth_error_nums n : forall s i, (i < n)%nat -> nth_error (nums s n) i = Some (s + N.of_nat i).
+Proof.
+  induction n as [|n IH]; intros s i Hi; [lia|]. destruct i as [|i]; cbn [nums nth_error].
+  - f_equal. lia.
+  - rewrite IH by lia. f_equal. lia.
+Qed.
+
+(* a Complete announced transfer: every package number 1..n occurs in the log for this key, with the announced size *)
+Theorem complete_needs_every_package c fs ms s rets i t :
+  run c (init_st fs) ms = Ok (s, rets) ->
+  nth_error (s_transfers s) i = Some t -> t_state t = Complete ->
+  (exists m f, In m ms /\ flst_of c m = Some (t_key t, f) /\ t_name t = f_name f /\
+     forall j, 1 <= j -> j <= f_nr f ->
+       exists raw, In (j, raw) (ops_for c (t_key t) ms) /\
+                   (if j =? f_nr f then lenN raw <= f_bs f else lenN raw = f_bs f))
+  \/ t_name t = MISSING_FLST.
+Proof.
+  intros Hrun Ht Hst.
+  destruct (complete_implies_exact _ _ _ _ _ _ _ Hrun Ht Hst) as [pk [Hsub [Hnum [_ [_ [_ [_ [[m [f [H1 [H2 [H3 [H4 [H5 _]]]]]]]|[Hn _]]]]]]]]];
+    [left|right; exact Hn].
+  exists m, f. split; [exact H1|]. split; [exact H2|]. split; [exact H3|].
+  intros j Hj1 Hj2. set (ix := N.to_nat (j - 1)).
+  assert (Hix : (ix < length pk)%nat) by (unfold ix; lia).
+  destruct (nth_error pk ix) as [[a raw]|] eqn:En; [|apply nth_error_None in En; lia].
+  assert (Ha : a = j).
+  { pose proof (map_nth_error fst _ _ En) as Hm. rewrite Hnum, nth_error_nums in Hm by exact Hix. cbn [fst] in Hm.
+    assert (Hm' : 1 + N.of_nat ix = a) by congruence. rewrite <- Hm'. unfold ix. rewrite N2Nat.id. lia. }
+  subst a. exists raw. apply nth_error_In in En. split; [eapply sublist_In; eassumption|].
+  unfold sizes_ok in H5. rewrite Forall_forall in H5. apply (H5 _ En).
+Qed.
